@@ -19,6 +19,7 @@ def parseCOp (toks : List String) : Option COp := do
   match toks.filter (fun t => !(t.startsWith "order=" || t.startsWith "aborts=" || t.startsWith "ov=")) with
   | ["deny", p] => pure (COp.deny (← p.toNat?) order aborts)
   | ["permit", p] => pure (COp.permit (← p.toNat?))
+  | ["raceDeny", k, p, pd, q] => pure (COp.raceDeny (← k.toNat?) (← p.toNat?) (← IO.parseB pd) (← q.toNat?) order aborts)
   | _ => (IO.parseOp (toks.filter (fun t => !t.startsWith "ov="))).map COp.sw
 
 def sortNat (l : List Nat) : List Nat := l.foldl (fun acc x => insertSorted x acc) []
@@ -56,6 +57,12 @@ def specMain (mon : Mon) (args outs : List String) : Mon × String :=
     ({ mon with m := m', connected := l.peers, mustClose := [] }, v)
   | some (COp.deny p _ _), some l =>
     -- the list after the call: `deny` makes `p` denied whatever the return value says
+    let peers := if mon.allowMode then setRemove mon.peers p else setInsert mon.peers p
+    let changed := outs.contains "ret=true"
+    let (m', v) := Swarm.Drv.onMain "C53:" { mon.m with op := none } (.behClose p none [] []) outs
+    ({ mon with m := m', peers, connected := l.peers,
+                mustClose := if changed then histConnsOf mon.m.h p else [] }, v)
+  | some (COp.raceDeny _ _ _ p _ _), some l =>
     let peers := if mon.allowMode then setRemove mon.peers p else setInsert mon.peers p
     let changed := outs.contains "ret=true"
     let (m', v) := Swarm.Drv.onMain "C53:" { mon.m with op := none } (.behClose p none [] []) outs
